@@ -51,8 +51,8 @@ def rlc_to_pronto(freq, data):
     pronto_data = [
         '0000',
         '%04X' % (int(round(pronto_carrier)),),
-        '%04X' % (int(len(data[0]) / 2),),
-        '%04X' % (int(len(data[1]) / 2),)
+        '%04X' % (int((len(data[0]) + 1) / 2),),
+        '%04X' % (int((len(data[1]) + 1) / 2),)
     ]
 
     for rlc in data:
@@ -61,8 +61,8 @@ def rlc_to_pronto(freq, data):
                 '%04X' % (int(abs(val) / carrier),)
             )
 
-    if len(pronto_data) % 2 != 0:
-        pronto_data.append('%04X' % (SIGNAL_FREE,))
+        if len(rlc) % 2 != 0:
+            pronto_data.append('%04X' % (SIGNAL_FREE,))
 
     return ' '.join(pronto_data)
 
